@@ -19,7 +19,7 @@ const (
 	techOwn  = "static analysis: interprocedural ownership/effect/alias summaries over go/ssa (OWN) and table-level ownership typestate with must-facts (TL)"
 	techErr  = "static analysis: error-flow and dominance rules over go/ssa"
 	techMix  = "static analysis: ownership typestate (TL), effect summaries (OWN), dominance/CFG rules over go/ssa, AST/constant rules over go/types"
-	explBase = "Rules are evaluated on the type-checked SSA form of /repo's current source (go/packages + go/ssa, linux/amd64; thorough adds linux/arm64 and -tags appengine). Every obligation is a concrete construct (function + call site / store / return / switch), listed under all_obligations with its verdict."
+	explBase = "Rules are evaluated on the type-checked SSA form of /repo's current source (go/packages + go/ssa, linux/amd64; thorough adds linux/arm64, linux/386 and -tags appengine). Every obligation is a concrete construct (function + call site / store / return / switch), listed under all_obligations with its verdict."
 )
 
 var propRules = map[string]*PropSpec{
@@ -216,11 +216,12 @@ var propRules = map[string]*PropSpec{
 		Technique:  "static analysis: integer-width rule over go/ssa with a triaged allow-list; ownership summaries",
 	},
 	"C16": {
-		Rules:       []string{"A1.api32", "A3.32", "A6.kernel", "F5", "F6", "A4", "F3.32", "F8.bitmap", "F8.run", "F8.scratch", "B6", "A9"},
+		Rules:       []string{"A1.api32", "A3.32", "A6.kernel", "F5", "F6", "A4", "F3.32", "F8.bitmap", "F8.run", "F8.scratch", "B6", "A9", "U8"},
 		Explanation: explBase + " C16: AddOffset/Flip/ToDense leave b unchanged; results hold only fresh or properly shared containers; static Flip inserts at the answer's index; addOffset nil discipline; FromDense(no copy) never writes the caller's words; shifted parts are re-typed.",
 		Decided: []string{
 			"the two halves produced by addOffset do not share spare capacity of one allocation",
 			"FromDense never consults cap() of the caller's words (nothing beyond len is read)",
+			"ToDense/WriteDenseTo never convert a value that carries a chunk base to int (32 bits on 386/arm)",
 			"AddOffset/AddOffset64/Flip/ToDense/WriteDenseTo never change their bitmap argument", "AddOffset64 and static Flip store only fresh containers or certified hand-offs", "static Flip inserts with an index searched in the answer", "addOffset never returns a typed nil inside the container interface", "FromDense without copy flags the container whenever its payload is the caller's slice", "Flip drops empty results; addOffset parts are returned in their cheapest representation"},
 		NotDecided: []string{"offset/carry arithmetic", "dense bit layout", "floor division for negative offsets"},
 		Technique:  techMix,
